@@ -1,6 +1,6 @@
 (* C09: the emitted boost::sml table is the input table, row by row; hooks exactly once per state. *)
 From Coq Require Import String Ascii List Bool Arith Lia.
-From KV Require Import Lib.TableDef Model.TTable Gen.SmlTmpl Model.SmlTT Proofs.TTableProofs.
+From KV Require Import Lib.TableDef Model.TTable Gen.SmlTmpl Model.SmlTT Proofs.TTableProofs Proofs.TTableSigProofs.
 Import ListNotations.
 Open Scope string_scope.
 
@@ -205,10 +205,10 @@ Proof.
   - intros g Hg. apply opt_some in Hg as [-> Hg]. unfold guards. apply In_present_dedup; [apply in_map; assumption|assumption].
   - intros a Ha. apply opt_some in Ha as [-> Ha]. split.
     + unfold actions. apply In_present_dedup; [apply in_map; assumption|assumption].
-    + unfold actionsignatures. apply In_dedup_pair.
+    + rewrite actionsignatures_pair. apply In_dedup_pair.
       apply (in_map (fun r => (r_act r, r_ev r))). apply filter_In. split; [assumption|]. rewrite Ha. reflexivity.
 Qed.
 
 Theorem sml_decl_lists_nodup : forall t,
   NoDup (states t) /\ NoDup (events t) /\ NoDup (guards t) /\ NoDup (actions t) /\ NoDup (actionsignatures t).
-Proof. intro t. repeat split; try apply NoDup_dedup. apply NoDup_dedup_pair. Qed.
+Proof. intro t. repeat split; try apply NoDup_dedup. rewrite actionsignatures_pair. apply NoDup_dedup_pair. Qed.
